@@ -388,7 +388,7 @@ func (r *relay) data(id uint32, data []byte, streamEnded bool) error {
 		nextPayload := make([]byte, nextPayloadLength)
 		copy(nextPayload, data)
 		data = data[nextPayloadLength:]
-		f := &queuedDataFrame{id, streamEnded && len(data) == 0, nextPayload}
+		f := &queuedDataFrame{id, streamEnded && len(data) == 0, nextPayload, &r.maxFrameSize}
 
 		r.flowMu.Lock()
 		w.enqueue(f)
